@@ -308,6 +308,10 @@ def _qrd(gate: np.ndarray):
     qubits = QuantumRegister(n_qubits)
     circuit = QuantumCircuit(qubits)
 
+    if n_qubits == 1:
+        circuit.append(UnitaryGate(gate), qubits)
+        return circuit
+
     gate_sequence = _build_qr_gate_sequence(gate, n_qubits)
     circuit = _build_qr_circuit(gate_sequence, n_qubits)
 
